@@ -467,7 +467,7 @@ def sweep(ctx):
     progs = _programs(ctx, 250 if q else 2500, 20 if q else 300)
     jobs = [(p, ctx.rng.randrange(1 << 30), 14 if q else 40) for p in progs]
     for rep in range(2 if q else 8):          # every gap of every special source, with different replacements / spellings
-        jobs += [(p, 7919 * rep + i, 10 ** 6) for i, p in enumerate(SPECIAL)]
+        jobs += [(p, 7919 * rep + i, 10 ** 6) for i, p in enumerate(SPECIAL + corpus.hard_snippets())]
     res = pmap(_gap_case, jobs)
     items = [it for lst in res for it in lst]
     ctx.tally('spelling', 'x')
